@@ -91,11 +91,13 @@ package ss2022
 //@ pure tsValid(ts int64, now time.Time) bool = ts >= now.Unix() - 30 && ts <= now.Unix() + 30
 
 //@ func ValidateUnixEpochTimestamp
+//@   nonblocking
 //@   requires len(b) >= 8
 //@   modifies nothing
 //@   ensures isnil(result) <==> tsValid(int64(be64(b)), now)
 
 //@ func ParseTCPRequestFixedLengthHeader
+//@   nonblocking
 //@   requires len(b) >= 11
 //@   modifies nothing
 //@   ensures isnil(err) <==> (b[0] == 0 && tsValid(int64(be64(b[1:])), now))
@@ -371,3 +373,31 @@ package ss2022
 //@   modifies nothing
 //@   ensures result1 == has(s.ulm, uPSKHash)
 //@   ensures result1 ==> result0 == s.ulm[uPSKHash]
+
+// ---------------------------------------------------------------------------
+// TCP server handshake (properties C02, C03, C08): what an accepted request implies.
+// ---------------------------------------------------------------------------
+
+//@ func readOnceExpectFull
+//@   modifies b[0:len(b)]
+//@   ensures 0 <= result0 && result0 <= len(b)
+//@   ensures isnil(result1) ==> result0 == len(b)
+
+//@ func lengthExtendSalt
+//@   requires len(salt) == 16 || len(salt) == 32
+//@   modifies nothing
+
+//@ pure ssKeysOK(s *StreamServer) bool = len(s.userCipherConfig.PSK) == 16 || len(s.userCipherConfig.PSK) == 32 || (len(s.userCipherConfig.PSK) == 0 && (len(s.identityCipherConfig.IPSK) == 16 || len(s.identityCipherConfig.IPSK) == 32))
+
+//@ func (*StreamServer).HandleStream
+//@   requires !isnil(s) && ssKeysOK(s) && len(s.unsafeRequestStreamPrefix) <= 65536
+//@   requires s.readOnceOrFull == readOnceExpectFull || s.readOnceOrFull == io.ReadFull
+//@   dyncall readOnceExpectFull, io.ReadFull
+// A multi-user server derives the session key from, and attributes the request to, exactly the user the
+// identity header's key hash is registered for (C08); the salt is stored under the time the request's
+// timestamp was validated against (C03); the request is only parsed from AEAD-opened bytes (C02).
+//@   callsite ShadowStreamCipher: identityHeaderLen != 0 ==> (exists h [16]byte :: has(s.CredStore.ulm, h) && s.CredStore.ulm[h].Name == req.Username && s.CredStore.ulm[h].UserCipherConfig == userCipherConfig)
+//@   callsite ShadowStreamCipher: identityHeaderLen == 0 ==> userCipherConfig == s.userCipherConfig && req.Username == ""
+//@   callsite Add: plaintext[0] == 0 && tsValid(int64(be64(plaintext[1:])), arg1) && arg2 == extendedSalt
+//@   callsite Add: arg1 == clocknow()
+//@   callsite ParseTCPRequestVariableLengthHeader: has(s.saltPool.nodeBySalt, extendedSalt)
